@@ -61,7 +61,7 @@ let req_of = function
                  | Some i -> bump ("spelled_" ^ String.sub a (i + 1) (String.length a - i - 1)); String.sub a 0 i
                  | None -> a) in
     let dh = (match cls dh with "absent" -> DHAbsent | "0" -> DH0 | "1" -> DH1 | "inf" -> DHInf | "bad" -> DHBad
-                                | _ -> raise (Parse_error "depth")) in
+                                | "infcase" -> DHInfCase | _ -> raise (Parse_error "depth")) in
     let ct = (match cls ct with "none" -> CTNone | "xml" | "xml2" -> CTXml | "other" -> CTOther
                                 | _ -> raise (Parse_error "ctype")) in
     let bd = (match b with
@@ -124,7 +124,7 @@ let form_stat (dh, ct, bd) =
         | BPropfind pf ->
           if pf.pf_propname then "body_propname" else if pf.pf_allprop then "body_allprop"
           else (match pf.pf_prop with None -> "body_no_form" | Some l -> Printf.sprintf "body_prop_%d" (min 9 (List.length l))));
-  bump (match dh with DHAbsent -> "depth_absent" | DH0 -> "depth_0" | DH1 -> "depth_1" | DHInf -> "depth_infinity" | DHBad -> "depth_bad");
+  bump (match dh with DHAbsent -> "depth_absent" | DH0 -> "depth_0" | DH1 -> "depth_1" | DHInf -> "depth_infinity" | DHBad -> "depth_bad" | DHInfCase -> "depth_infinity_case_variant");
   ignore ct
 
 let judge ?(by_rid=false) sx model spec obs =
